@@ -60,7 +60,12 @@ def suite_params(suite_name):
 
 def api_summary(ctx, suite, which, **kw):
     gp, names = API[which]
-    return ctx.summary(suite, gp, params=[Sym(n) for n in names], **kw)
+    s = ctx.summary(suite, gp, params=[Sym(n) for n in names], **kw)
+    # L-EXPLORED (checked for every property by ./check): a rule that loops over the paths of an API function is vacuous if there are none
+    if not hasattr(ctx, 'api_log'):
+        ctx.api_log = {}
+    ctx.api_log.setdefault((suite, which), s)
+    return s
 
 
 def fields(v):
